@@ -1,12 +1,43 @@
 import HW.Model.Inbox
+import HW.Proofs.InboxInv
 namespace HW.Inbox
+
+theorem countP_inside_le (l : List Pc) :
+    l.countP insideReceive ≤ l.countP isInvoke + l.countP preCas := by
+  induction l with
+  | nil => simp
+  | cons a l ih =>
+    simp only [List.countP_cons]
+    cases a <;> simp [insideReceive, isInvoke, preCas] <;> omega
+
+theorem countP_of_quiescent {s : St} (hq : quiescent s = true) (p : Pc → Bool)
+    (hp : ∀ pc, isDone pc = true → p pc = false) : s.thr.countP p = 0 := by
+  rw [List.countP_eq_zero]
+  intro a ha
+  have := List.all_eq_true.1 hq a ha
+  simp [hp a this]
+
+theorem isDone_cases {pc : Pc} (h : isDone pc = true) : pc = .done ∨ pc = .sPush [] := by
+  cases pc <;> simp [isDone] at h ⊢
+  rename_i ms
+  cases ms <;> simp at h ⊢
 
 /-- mutual exclusion: as long as the inbox is not re-opened after a Stop, at most one goroutine is
     inside the actor's Receive, in every reachable state. -/
 theorem mutex (B : Nat) (hB : 1 ≤ B) (senders : List (List Msg)) (nStop : Nat) (s : St)
     (hr : Reachable B senders nStop s) (hp : s.restartedAfterStop = false) :
     nInside s ≤ 1 := by
-  sorry
+  have _ := hB  -- `1 ≤ B` is not needed for these safety properties
+  have inv := Inv.reachable hr
+  have hle := countP_inside_le s.thr
+  unfold nInside
+  cases hs : s.started
+  · have h1 := (inv.unstarted hs).1
+    have h2 := inv.e_unstarted hs
+    omega
+  · have h1 := inv.e_started hs
+    have h2 := inv.n1 hp
+    omega
 
 /-- no lost wake-up (safety form): a started, never stopped inbox is never idle with a backlog
     unless some thread is still about to (re)schedule. -/
@@ -17,14 +48,62 @@ theorem no_idle_backlog (B : Nat) (hB : 1 ≤ B) (senders : List (List Msg)) (nS
     (∃ (t : Nat) (ms : List Msg), s.thr[t]? = some (Pc.sSched ms)) ∨
     (∃ t : Nat, s.thr[t]? = some Pc.wLen ∨ s.thr[t]? = some Pc.wSched) ∨
     (∃ t : Nat, s.thr[t]? = some Pc.stSched) := by
-  sorry
+  have _ := hB  -- `1 ≤ B` is not needed for these safety properties
+  have inv := Inv.reachable hr
+  rcases inv.j hs hn hq with h | h
+  · exact Or.inl h
+  · obtain ⟨t, pc, hpc, hw⟩ := exists_of_countP_pos h
+    cases pc <;> simp [waker] at hw
+    case sSched ms => exact Or.inr (Or.inl ⟨t, ms, hpc⟩)
+    case wLen => exact Or.inr (Or.inr (Or.inl ⟨t, Or.inl hpc⟩))
+    case wSched => exact Or.inr (Or.inr (Or.inl ⟨t, Or.inr hpc⟩))
+    case stSched => exact Or.inr (Or.inr (Or.inr ⟨t, hpc⟩))
 
 /-- at quiescence (all threads finished) of a started, never stopped inbox: the queue is empty, the
     inbox is idle, and exactly the pushed messages have been delivered, in push order. -/
 theorem quiescent_all_delivered (B : Nat) (hB : 1 ≤ B) (senders : List (List Msg)) (nStop : Nat) (s : St)
     (hr : Reachable B senders nStop s) (hq : quiescent s = true) (hn : s.everStopped = false) :
     s.started = true ∧ s.status = .idle ∧ s.q = [] ∧ s.delivered = s.pushed.map (·.2) := by
-  sorry
+  have _ := hB  -- `1 ≤ B` is not needed for these safety properties
+  have inv := Inv.reachable hr
+  have dn : ∀ (p : Pc → Bool), p .done = false → p (.sPush []) = false →
+      ∀ pc, isDone pc = true → p pc = false := by
+    intro p h1 h2 pc hd
+    rcases isDone_cases hd with rfl | rfl
+    · exact h1
+    · exact h2
+  have cA := countP_of_quiescent hq activeNI (dn _ rfl rfl)
+  have cI := countP_of_quiescent hq isInvoke (dn _ rfl rfl)
+  have cP := countP_of_quiescent hq preCas (dn _ rfl rfl)
+  have cS := countP_of_quiescent hq atSwap (dn _ rfl rfl)
+  have cW := countP_of_quiescent hq waker (dn _ rfl rfl)
+  have hstarted : s.started = true := by
+    cases hs : s.started
+    · have := inv.e_unstarted hs; omega
+    · rfl
+  have hrs : s.restartedAfterStop = false := by
+    cases h : s.restartedAfterStop
+    · rfl
+    · have := inv.r_e h; rw [hn] at this; cases this
+  have hnr : s.status ≠ .running := by
+    intro h
+    have := inv.n2 hrs h; omega
+  have hidle : s.status = .idle := by
+    rcases inv.i5 hstarted hn with h | h
+    · exact h
+    · exact absurd h hnr
+  have hq0 : s.q = [] := by
+    cases hqq : s.q with
+    | nil => rfl
+    | cons a l =>
+      have hne : s.q ≠ [] := by rw [hqq]; simp
+      rcases inv.j hstarted hn hne with h | h
+      · exact absurd h hnr
+      · omega
+  refine ⟨hstarted, hidle, hq0, ?_⟩
+  have := inv.c0 hrs cI
+  rw [hq0, List.append_nil] at this
+  exact this
 
 /-- conservation in every reachable state without a re-open: delivered ++ in-flight batch ++ queue
     is exactly what was pushed (nothing lost, duplicated or reordered inside the inbox). -/
@@ -32,7 +111,15 @@ theorem conservation (B : Nat) (hB : 1 ≤ B) (senders : List (List Msg)) (nStop
     (hr : Reachable B senders nStop s) (hp : s.restartedAfterStop = false) :
     ∃ inflight, (inflight = [] ∨ ∃ t : Nat, s.thr[t]? = some (Pc.wInvoke inflight)) ∧
       s.delivered ++ inflight ++ s.q = s.pushed.map (·.2) := by
-  sorry
+  have _ := hB  -- `1 ≤ B` is not needed for these safety properties
+  have inv := Inv.reachable hr
+  by_cases hI : s.thr.countP isInvoke = 0
+  · refine ⟨[], Or.inl rfl, ?_⟩
+    rw [List.append_nil]
+    exact inv.c0 hp hI
+  · obtain ⟨t, pc, hpc, hw⟩ := exists_of_countP_pos (p := isInvoke) (l := s.thr) (by omega)
+    cases pc <;> simp [isInvoke] at hw
+    case wInvoke b => exact ⟨b, Or.inr ⟨t, hpc⟩, inv.c1 hp t b hpc⟩
 
 /-- program order: what sender thread `t` has pushed so far is a prefix of its program, and the
     rest of its program is what it still holds. -/
@@ -40,7 +127,8 @@ theorem sender_program_order (B : Nat) (senders : List (List Msg)) (nStop : Nat)
     (hr : Reachable B senders nStop s) (i : Nat) (prog : List Msg) (hi : senders[i]? = some prog) :
     ∃ rest, sentBy s (i + 1) ++ rest = prog ∧
       (s.thr[i + 1]? = some (Pc.sPush rest) ∨ s.thr[i + 1]? = some (Pc.sSched rest) ∨
-       (rest = [] ∧ s.thr[i + 1]? = some Pc.done)) := by
-  sorry
+       (rest = [] ∧ s.thr[i + 1]? = some Pc.done)) :=
+  ProgOrd.reachable hr i prog hi
 
 end HW.Inbox
+
